@@ -156,6 +156,9 @@ pub struct UpdateCase {
     /// run with a custom row validator that accepts everything (`|_, _, _| true`): outside the model
     /// (op `updatecv`, answered `unsupported`), judged by an oracle on the implementation alone
     pub accept_all: bool,
+    /// records (controls, thresholds) run through `run_script` on the SAME runner before the update:
+    /// what they leave behind is in force during the update, as it is for a later `run_file`
+    pub pre: Vec<String>,
 }
 
 impl UpdateCase {
@@ -224,7 +227,18 @@ impl UpdateCase {
             None => o.push_str(" K -"),
             Some(k) => o.push_str(&format!(" K {}", k)),
         }
+        if !self.pre.is_empty() {
+            o.push_str(&format!(" P {}", self.pre.len()));
+            for l in &self.pre {
+                o.push(' ');
+                o.push_str(&hx(l));
+            }
+        }
         o
+    }
+
+    fn pre_text(&self) -> String {
+        self.pre.iter().map(|l| format!("{}\n\n", l)).collect()
     }
 
     fn make_runner(
@@ -253,8 +267,12 @@ impl UpdateCase {
             if self.strict_cols { strict_column_validator } else { default_column_validator };
         let root = self.tree.root.clone();
         let sep = self.sep.clone();
+        let pre = self.pre_text();
         let res = catch_unwind(AssertUnwindSafe(|| {
             let accept_all: Validator = |_, _, _| true;
+            if !pre.is_empty() {
+                runner.run_script(&pre).map_err(|e| e.to_string())?;
+            }
             futures::executor::block_on(runner.update_test_file(
                 &root,
                 &sep,
@@ -417,7 +435,13 @@ impl UpdateCase {
                 set_current(Some(shared2.clone()));
                 let mut r2 = self.make_runner(&shared2);
                 let root = self.tree.root.clone();
-                let rr = catch_unwind(AssertUnwindSafe(|| r2.run_file(&root)));
+                let pre = self.pre_text();
+                let rr = catch_unwind(AssertUnwindSafe(|| {
+                    if !pre.is_empty() {
+                        r2.run_script(&pre)?;
+                    }
+                    r2.run_file(&root)
+                }));
                 drop(r2);
                 set_current(None);
                 match rr {
